@@ -13,7 +13,7 @@ SEEDS = {
  "C01-2": ("C01", "pkg/state/impl/namespaced/namespaced.go", "getNamespace: atomic LoadOrStore replaced by build-then-Store (check-then-act)",
            "an interleaving: two goroutines doing the very first operation on a not yet instantiated namespace",
            "pkg/state/impl/namespaced", "TestSeed2ConcurrentFirstUseOfNamespace", ["C01"],
-           "namespaced.State is not under contract (sync.Map based lazy construction; a lock-free publication argument, not a monitor invariant)"),
+           "first evaluation: missed (namespaced.State was not under contract); getNamespace now ensures [one-instance-per-namespace] over an assumed contract of the concurrent map that exports only facts stable under concurrent use (what Load/LoadOrStore return is the published value; Store promises nothing)"),
  "C02-1": ("C02", "pkg/state/impl/inmem/collection.go", "WatchAll delivery loop: `if first < last` became `if first <= last`",
            "a kind watcher lagging behind the writer by exactly the history capacity when it next takes the lock",
            "pkg/state/impl/inmem", "TestSeed1LagExactlyCapacity", ["C02", "C12"], ""),
@@ -40,7 +40,7 @@ SEEDS = {
  "C11-2": ("C11", "pkg/state/protobuf/client/client.go", "client Adapter.Teardown applies the TeardownOption functions after the sticky not-supported check",
            "a server answering Unimplemented for Teardown, a Teardown with a non-empty owner, and the call being the second or later on the same Adapter",
            "pkg/state/protobuf", "TestSeed2TeardownStickyFallbackOwner", ["C11"],
-           "the gRPC client adapter is not under contract (the C11 claim is the server-side no-panic sweep and query conversion)"),
+           "first evaluation: missed (the client adapter was not under contract); client Adapter.Teardown now asserts at both fallback calls that the option loop has run to completion"),
  "C12-1": ("C12", "pkg/state/impl/inmem/collection.go", "WatchAll bookmark range check relaxed from `pos >= writePos` to `pos > writePos`",
            "a boundary input: a bookmark with the right cookie whose position equals the current write position (forged or taken from a longer log of the same process)",
            "pkg/state/impl/inmem", "TestSeed1BookmarkAheadOfLog", ["C12"], ""),
@@ -50,11 +50,11 @@ SEEDS = {
  "C04-1": ("C04", "pkg/state/wrap.go", "coreWrapper.Teardown discards the value returned by UpdateWithConflicts and computes readiness from the stale object of its initial Get",
            "an interleaving: a finalizer is added or removed between Teardown's Get and its Update, on a CoreState that does not implement Teardowner",
            "pkg/state", "TestSeed1TeardownRacesWithAddFinalizer", ["C04"],
-           "coreWrapper.Teardown is not under contract (the C04 claim is UpdateWithConflicts); tying the returned readiness to the last committed value needs a ghost 'latest value seen' through UpdateWithConflicts, not built"),
+           "first evaluation: missed (Teardown was not under contract); a ghost 'latest value seen' (written by the Get interface contract and by UpdateWithConflicts) and the call-site assertion [readiness-from-latest-value] were added because of this seed"),
  "C04-2": ("C04", "pkg/state/wrap.go", "ModifyWithResult restarts itself when Create reports already-exists, after updateFunc has already mutated the empty resource",
            "a non-idempotent mutator and the sequence Get-missing / competitor Creates / Create fails / competitor Destroys / restart",
            "pkg/state", "TestSeed2ModifyRacesWithCreateAndDestroy", ["C04"],
-           "coreWrapper.ModifyWithResult is not under contract (recursion through the wrapper; 'the mutator is applied once per committed write' needs a ghost application counter on the function value)"),
+           "first evaluation: missed (ModifyWithResult was not under contract); the ghost counter of refused Creates and [refused-create-is-reported] were added because of this seed"),
  "C07-1": ("C07", "pkg/controller/generic/transform/controller.go", "processInputs keeps going to WriterModify after AddFinalizer on the input failed",
            "the input destroyed between the controller's List and its AddFinalizer call, or a fault at that call",
            "pkg/controller/generic/transform", "TestSeed1InputGoneBeforeFinalizer", ["C07"],
